@@ -86,6 +86,7 @@ def check(ctx):
     ctx.rule("R12", "the value of a string or bytes literal is computed by the interpreter's own evaluators (ast.literal_eval / the host parser / the f-string adaptor) on every path - never by slicing the token text (escapes, line-ending translation, prefixes)", floor=3)
     ctx.rule("R13", "the post-parse target check rejects a program only on the verdict of its one decision function (_not_assignable), and that function never rejects a Name, Attribute, Subscript or Starred target: valid Python is not turned into a SyntaxError by an extra check", floor=4)
     ctx.rule("R14", "the context setters reach every nested target: store_ctx / del_ctx / load_ctx (and a shared worker, if they delegate to one) call themselves on each element of a Tuple or List target and on the value of a Starred target - the three places where the interpreter's grammar nests a target inside a target (`a, *(b, c) = x`, `for a, *[b, c] in xs`)", floor=9)
+    ctx.rule("R15", "a multi-character token that stands for several grammatical units keeps its multiplicity: the action of every production whose alternatives are single tokens of different lengths that a parent measures (PERIOD | ELLIPSIS for the level of `from ... import`) hands up the token's own text - or its length -, never a fixed-size wrapper per token: a level counted in tokens reads `from ... import a` as level 1", floor=1)
     ctx.rule("R9", "the generated LALR table on disk (if present) was generated from the grammar of the working tree", floor=1)
 
     asdl = Asdl()
@@ -456,6 +457,7 @@ def check(ctx):
     else:
         ctx.ob("R9", tbl, "no generated table on disk: the parser regenerates it from the working tree", True)
     _ctx_setters_recurse(ctx, asdl)
+    _token_multiplicity(ctx)
     _literal_values(ctx)
     fstring_chunk_values(ctx, "R12")
     _target_check_grounds(ctx)
@@ -736,6 +738,34 @@ def fstring_chunk_values(ctx, rule):
         deep = [c for l_ in ast.walk(fn) if isinstance(l_, (ast.For, ast.comprehension)) and isinstance(l_.target, ast.Name) and isinstance(root_, ast.Name) and l_.target.id == root_.id for c in ast.walk(l_.iter) if isinstance(c, ast.Call) and (call_name(c) or "").split(".")[-1] in ("walk", "iter_child_nodes", "_walk", "walk_local")]
         ctx.ob(rule, st, f"`{short(a, 40)}`: the chunk being unescaped is a direct part of this literal (one pass per literal; no recursive walk into fields that were processed already)", not deep, key="fstring-chunk|unescaped-recursively", where=loc(deep[0]) if deep else loc(a), detail=f"`{short(deep[0], 50)}` also reaches constants nested inside replacement fields" if deep else None)
 
+
+
+def _token_multiplicity(ctx):
+    """R15: productions `x : TOK_A | TOK_B` whose tokens' texts differ in length and whose value is measured upstream."""
+    import re as _re
+
+    n = 0
+    for rel in ("xonsh/parsers/base.py", "xonsh/parsers/v36.py", "xonsh/parsers/v38.py", "xonsh/parsers/v39.py", "xonsh/parsers/v310.py", "xonsh/parsers/v313.py"):
+        try:
+            m = ctx.repo.module(rel)
+        except Exception:
+            continue
+        for q, f in m.functions():
+            doc = ast.get_docstring(f, clean=False) if q.split(".")[-1].startswith("p_") else None
+            if not doc or ":" not in doc:
+                continue
+            head, _, rhs = doc.partition(":")
+            alts = [a.split() for a in rhs.split("|")]
+            # every alternative one terminal (upper case), at least two alternatives, ELLIPSIS among them
+            if len(alts) < 2 or not all(len(a) == 1 and a[0].isupper() for a in alts) or "ELLIPSIS" not in {a[0] for a in alts}:
+                continue
+            n += 1
+            stores = [a for a in walk_local(f) if isinstance(a, ast.Assign) and any(unparse(t) == "p[0]" for t in a.targets)]
+            ok = bool(stores) and all(unparse(a.value) == "p[1]" or (isinstance(a.value, ast.Call) and call_name(a.value) == "len" and unparse(a.value.args[0]) == "p[1]") for a in stores)
+            bad = next((a for a in stores if not (unparse(a.value) == "p[1]" or (isinstance(a.value, ast.Call) and call_name(a.value) == "len"))), None)
+            ctx.ob("R15", f"{rel}:{q}", f"`{head.strip()}` ({' | '.join(a[0] for a in alts)}) hands up the token's own text", ok, key=f"{q.split('.')[-1]}|token-multiplicity-lost", where=loc(bad) if bad is not None else loc(f), detail=None if ok else f"`{short(bad, 40)}`: one entry per token - `...` is one ELLIPSIS token of three dots, so a length taken upstream counts tokens, not dots")
+    if n == 0:
+        raise AnalysisError("no production over PERIOD | ELLIPSIS found in the parser modules")
 
 
 def _ctx_setters_recurse(ctx, asdl):
